@@ -93,6 +93,9 @@ def generate(seed, tier):
             deep_idx = len(pool)
         pool.append(rc.choice(['- ' * d + '1', 'x = ' + '[' * d + ']' * d + '\nlen(x)', 'not ' * d + 'True',
                                '1' + ' + 1' * d, '0' + ' if False else 0' * min(d, 200)]))
+    if rc.random() < 0.3:
+        # results that are nested containers spelled entirely with constants (the host is going to change their INNER parts)
+        pool.extend(rc.sample(['[[1, 2], [3]]', '{"a": [[1], [2, 3]]}', 'get({}, "k", [[7], []])', '[[], [[]]]', '[{"k": [1]}, [2]]', '[[1, 2], [3]] | reversed'], 2))
     if rc.random() < 0.35:
         # different programs whose texts a sloppy key normalisation would take for the same text
         fam = rc.choice([
@@ -125,7 +128,7 @@ def generate(seed, tier):
                 ops[-1]['defer'] = True      # requested now (generator not started), read after the next call
             continue
         if k == 'host_mutate':
-            ops.append({'op': 'host_mutate', 'which': ro.randint(0, 3), 'how': ro.choice(['append', 'clear', 'set0', 'nested_append'])})
+            ops.append({'op': 'host_mutate', 'which': ro.randint(0, 3), 'how': ro.choice(['append', 'clear', 'set0', 'nested_append', 'nested_append'])})
             continue
         if k == 'cache_fault':
             ops.append({'op': 'cache_fault', 'kind': ro.choice(['evict_key', 'evict_key', 'evict_all']), 'which': ro.randrange(len(pool))})
